@@ -4,7 +4,7 @@
    anpPortContains, Check{In,E}gressConnAllowed), which do not go through connection sets;
    Model/Eval.v mirrors the set computation of `list`. *)
 From Coq Require Import List ZArith Bool String.
-From NP Require Import IntervalSet ConnSet ConnSetProofs World Eval Spec EvalProofs EvalPoint EvalPointProofs.
+From NP Require Import IntervalSet ConnSet ConnSetProofs World Eval Spec EvalProofs EvalPoint EvalPointProofs EvalTotal.
 Import ListNotations.
 Open Scope Z_scope.
 
@@ -34,3 +34,10 @@ Theorem C03_self_allowed w src dst pr n :
   pod_to_itself src dst = true -> check_allowed w src dst pr n = Ok true.
 Proof. exact (self_allowed w src dst pr n). Qed.
 Print Assumptions C03_self_allowed.
+
+(* where list can analyse the pair, eval answers (for every point of that pair) rather than fails *)
+Theorem C03_eval_answers_where_list_can_analyse w src dst c pr n :
+  peer_okb dst = true -> world_okb w = true -> valid_port n = true ->
+  all_conns w src dst = Ok c -> exists b, check_allowed w src dst pr n = Ok b.
+Proof. exact (eval_total_when_list_ok w src dst c pr n). Qed.
+Print Assumptions C03_eval_answers_where_list_can_analyse.
